@@ -6,6 +6,7 @@ CONSTANTS
   MAXU = 3
   OBJS = {"e", "d"}
   PROP = "C01"
+  PERT = {1}
 SPECIFICATION Spec
 INVARIANTS C01 C09 C02 C03 NoJunk EmitReplay
 CHECK_DEADLOCK FALSE
